@@ -34,9 +34,9 @@ func (c05Prop) Phases(tier string) []PhaseCfg {
 		return PhaseCfg{Name: fmt.Sprintf("enum-depth-%d", d), Radix: rad, Count: product(rad), P: map[string]int{"depth": d}}
 	}
 	if tier == "thorough" {
-		return []PhaseCfg{enum(0), enum(1), enum(2), {Name: "seeded", Count: 3_000_000, P: map[string]int{"maxdepth": 5}}, pairPhase(4_000, 300_000, tier)}
+		return []PhaseCfg{enum(0), enum(1), enum(2), {Name: "seeded", Count: 20_000_000, P: map[string]int{"maxdepth": 5}}, pairPhase(4_000, 400_000, tier)}
 	}
-	return []PhaseCfg{enum(0), enum(1), {Name: "seeded", Count: 60_000, P: map[string]int{"maxdepth": 5}}, pairPhase(4_000, 300_000, tier)}
+	return []PhaseCfg{enum(0), enum(1), {Name: "seeded", Count: 150_000, P: map[string]int{"maxdepth": 5}}, pairPhase(4_000, 300_000, tier)}
 }
 
 type c05Case struct {
